@@ -318,7 +318,39 @@ pub fn apply<E: Elem>(t: &mut TooDee<E>, m: &mut Model<u32>, act: &Act, c: &mut 
                             2 => held.extend(d.by_ref().skip(1).step_by(2)),
                             3 => held.extend(d.by_ref().rev().skip(1)),
                             4 => held.extend(d.by_ref().last()),
-                            _ => count = Some(d.by_ref().count()),
+                            5 => count = Some(d.by_ref().count()),
+                            // consumption that runs INTO and PAST the point where the two ends meet
+                            6 => {
+                                held.extend(d.next());
+                                while let Some(e) = d.next_back() {
+                                    held.push(e);
+                                }
+                                held.extend(d.next_back());
+                                held.extend(d.next());
+                            }
+                            7 => {
+                                held.extend(d.next_back());
+                                while let Some(e) = d.next() {
+                                    held.push(e);
+                                }
+                                held.extend(d.next());
+                                held.extend(d.next_back());
+                            }
+                            8 => {
+                                held.extend(d.next());
+                                held.extend(d.by_ref().rev());
+                                held.extend(d.next_back());
+                            }
+                            _ => loop {
+                                let a = d.next();
+                                let b = d.next_back();
+                                let done = a.is_none() && b.is_none();
+                                held.extend(a);
+                                held.extend(b);
+                                if done {
+                                    break;
+                                }
+                            },
                         }
                         drop(d);
                     }};
@@ -605,7 +637,7 @@ pub fn actions(c: usize, r: usize, copy: bool, leaks: bool) -> Vec<Act> {
     }
     if leaks {
         for i in 0..r {
-            for mode in 0..6 {
+            for mode in 0..10 {
                 v.push(Act::new("rrx", &[i, mode]));
             }
             for (f, b) in splits(c) {
@@ -613,7 +645,7 @@ pub fn actions(c: usize, r: usize, copy: bool, leaks: bool) -> Vec<Act> {
             }
         }
         for i in 0..c {
-            for mode in 0..6 {
+            for mode in 0..10 {
                 v.push(Act::new("rcx", &[i, mode]));
             }
             for (f, b) in splits(r) {
